@@ -201,6 +201,12 @@ func (m *mon) canon(ctor string, j jid.JID, how string, xmlToo bool) bool {
 	if d == "" {
 		m.viol("L2", ctor, "domain-empty", "%s: returned address %s has an empty domainpart", how, q(s))
 	}
+	for pi, part := range []string{l, d, r} {
+		if i := hasASCIIControl(part); i >= 0 {
+			name := []string{"local", "domain", "resource"}[pi]
+			m.viol("L2", ctor, name+"-control-char", "%s: the %spart %s of the returned address contains the control character U+%04X, which the %s rules refuse", how, name, q(part), part[i], map[bool]string{true: "IDNA", false: "PRECIS"}[pi == 1])
+		}
+	}
 	if i := strings.IndexAny(l, forbiddenLocal); i >= 0 {
 		m.viol("L2", ctor, "local-forbidden-char", "%s: localpart %s contains forbidden %q", how, q(l), l[i])
 	}
@@ -524,6 +530,10 @@ func (m *mon) accepted(j jid.JID, how, input string, depth int) {
 		if m.bad {
 			return
 		}
+		m.controls(j, input)
+		if m.bad {
+			return
+		}
 	}
 
 	// mutants of the accepted address
@@ -588,7 +598,15 @@ func witnessWithDomain(base, dom string) func(*core.Case) {
 
 // Prop returns the C11 check.
 func Prop() *core.Prop {
-	return &core.Prop{
+	var ctlReq []string
+	for code := 0; code < 33; code++ {
+		ctl := code
+		if code == 32 {
+			ctl = 0x7f
+		}
+		ctlReq = append(ctlReq, fmt.Sprintf("control_char_U+%04X", ctl))
+	}
+	p := &core.Prop{
 		ID:    "C11",
 		Level: core.Exploration,
 		Rule:  "each case is one PRNG input - an address string (assembled from generated parts with separators inside parts, raw atom sequences, or well-formed local@domain/resource with trailing material) or a triple of part strings - over an alphabet of ASCII in both cases, separators and forbidden localpart characters with their full-width/small-form variants, width variants, combining sequences, final sigma, sharp s, dotless i, ligatures, ZWJ/ZWNJ and other default-ignorables, RTL letters and digits, A-labels valid and invalid, IPv4/IPv6 literals and near-literals, trailing dots of four kinds, parts of 1020-1027 bytes measured before or after normalisation, invalid UTF-8; every accepted address is followed by WithLocal/WithDomain/WithResource with generated parts and by two mutants (depth 1). Laws L1-L5 of DESIGN.md C11 are evaluated on every value returned with a nil error. Non-trivial = an accepted, canonical address; distinct = distinct 20-bit hashes of the accepted canonical strings.",
@@ -627,6 +645,12 @@ func Prop() *core.Prop {
 			"decode_into_used_destination_longer", "decode_late_failing_into_used_destination",
 			"decode_destination_variable", "decode_destination_struct-field-attribute", "decode_destination_struct-field-element", "decode_destination_slice-element", "decode_destination_method-call",
 			"alias_op_Bare", "alias_op_Domain", "alias_op_Copy", "alias_op_WithLocal", "alias_op_WithDomain", "alias_op_WithResource",
+			"control_char_probes", "control_char_in_localpart", "control_char_in_domainpart", "control_char_in_resourcepart",
+			"control_char_at_start", "control_char_at_inside", "control_char_at_end",
+			"control_char_route_New", "control_char_route_Parse", "control_char_route_UnmarshalXMLAttr", "control_char_route_UnmarshalXML",
+			"control_char_route_WithLocal", "control_char_route_WithDomain", "control_char_route_WithResource", "unrelated_rune_probes",
 		},
 	}
+	p.Require = append(p.Require, ctlReq...)
+	return p
 }
